@@ -62,6 +62,8 @@ def all_nests(depths):
             for inner in ["num", "", ")", "x"]:
                 out.append("let a = " + o * d + inner + CLOSERS[o] * d + ";\nres / on get -> <a>;\n")
             out.append("let a = " + o * d + "num" + ";\n")                    # closers missing
+            # a well-formed nest in a text that has a lexical error elsewhere
+            out.append("let z = \u00a7 str;\nlet a = " + o * d + "num" + CLOSERS[o] * d + ";\nres / on get -> <a>;\n")
     return out
 
 
